@@ -5,6 +5,7 @@ import (
 	"context"
 	"fmt"
 	"io"
+	"math"
 	"os"
 	"regexp"
 	"strconv"
@@ -260,6 +261,8 @@ func ParseFile(filename string, out chan interface{}) error {
 func ParseByLine(in io.Reader, out chan interface{}) error {
 
 	scanner := bufio.NewScanner(in)
+	// a line may be longer than bufio.MaxScanTokenSize (64 KiB); let the buffer grow as far as memory allows
+	scanner.Buffer(make([]byte, 0, bufio.MaxScanTokenSize), math.MaxInt)
 
 	for scanner.Scan() {
 		s := scanner.Text()
